@@ -481,9 +481,12 @@ class KernelPCovR(_BasePCA, LinearModel):
         K_VV = self._get_kernel(X)
 
         if self.center:
+            # the test-test kernel has to be centered with the training statistics
+            K_VN_rows = np.mean(K_VN, axis=1)
+            K_VV = K_VV - K_VN_rows[:, np.newaxis] - K_VN_rows[np.newaxis, :]
+            K_VV = (K_VV + self.centerer_.K_fit_all_) / self.centerer_.scale_
             K_NN = self.centerer_.transform(K_NN)
             K_VN = self.centerer_.transform(K_VN)
-            K_VV = self.centerer_.transform(K_VV)
 
         y = K_VN @ self.pky_
         Lkrr = np.linalg.norm(Y - y) ** 2 / np.linalg.norm(Y) ** 2
